@@ -259,7 +259,7 @@ impl Scenario for C11 {
     fn run_case(&self, spec: &CaseSpec, text: bool) -> CaseReport {
         let mut cs = spec.stream();
         let lc = LifeCfg {
-            consumer_ends: vec![ConsumerEnd::ClientCancel, ConsumerEnd::ClientCancelTwice, ConsumerEnd::Drop, ConsumerEnd::ServerCancel { nowait: false }, ConsumerEnd::Inherit, ConsumerEnd::Inherit],
+            consumer_ends: vec![ConsumerEnd::ClientCancel, ConsumerEnd::ClientCancelTwice, ConsumerEnd::Drop, ConsumerEnd::DropWhole, ConsumerEnd::ServerCancel { nowait: false }, ConsumerEnd::Inherit, ConsumerEnd::Inherit],
             channel_ends: vec![ChannelEnd::Normal, ChannelEnd::Normal, ChannelEnd::ClientCloseWithConsumers, ChannelEnd::ServerClose { code: 0, text: String::new() }],
             conn_ends: vec![ConnEnd::Normal, ConnEnd::Normal, ConnEnd::ClientCloseEarly { after_ns: 0 }, ConnEnd::ServerClose { code: 0, text: String::new() }],
             max_threads: 3,
